@@ -575,8 +575,11 @@ int token_case_replay(uint64_t code, int len, int limit)
 /* ------------------------------------------------------------------ */
 /* C11 helpers: deep "spines" and cycles are handled iteratively (no recursion in the harness).
  * A spine is a chain of nested containers; at some levels scalar siblings precede the nested child. */
+static const char *const CHAIN_CONST_KEY = "k";
+
 cJSON *shim_make_chain(int containers, int pattern, int with_leaf, int sibling_every)
 {
+    /* pattern bit 3: members are added with a constant key (cJSON_AddItemToObjectCS) */
     cJSON *root = NULL;
     cJSON *cur = NULL;
     int i;
@@ -608,9 +611,16 @@ cJSON *shim_make_chain(int containers, int pattern, int with_leaf, int sibling_e
                     cJSON_AddItemToArray(cur, cJSON_CreateNumber(i));
                 }
             }
-            if (cur->type == cJSON_Object)
+            if ((cur->type & 0xFF) == cJSON_Object)
             {
-                cJSON_AddItemToObject(cur, "k", n);
+                if (pattern & 8)
+                {
+                    cJSON_AddItemToObjectCS(cur, CHAIN_CONST_KEY, n);
+                }
+                else
+                {
+                    cJSON_AddItemToObject(cur, "k", n);
+                }
             }
             else
             {
